@@ -102,5 +102,14 @@ class Prop(G.InputPropBase):
                 for end in (b"", b"~", b"A", b";", b"M"):
                     g = intro + bytes(rng.choice(b"0123456789") for _ in range(n)) + end
                     cs.append(Case("I " + pair(g, n), cfgs=["C07"], sweep="digit-runs", tag="digit-run"))
+        # resynchronisation after MANY well-formed items of one kind and a dangling prefix (a counter that wraps at the
+        # 86th / 171st / 256th mouse report, key or line ending)
+        reps = [G.item_bytes(("m", "7", 0, 10, 20)), G.item_bytes(("m", "8", 3, 0, 222)), G.item_bytes(("k", "7", 0, 5, 1)), b"\r\n", b"\x1b[5~"]
+        k = 0
+        for rep in reps:
+            for n in (84, 85, 86, 170, 171, 255, 256, 257):
+                for dangling in (b"\x1b[", b"\x1b[M", b"\x1b[Mab", b"\x1b", b""):
+                    cs.append(Case("I " + pair(rep * n + dangling, k), sweep="resync-after-n-items", cfgs=["C07"], tag="resync-after-n-items"))
+                    k += 1
         cs += G.numeric_sweep("C07")
         return cs
